@@ -192,6 +192,9 @@ def v3_spec(max_events=80, max_n=30, with_logs=True, tids=None, records_strategy
             'table': st.just(table), 'strings_block': st.booleans(),
             'xml': st.lists(st.booleans(), min_size=12, max_size=12),
             'last_pad': st.booleans(),
+            # look-alike sections inside the stackshot ("the threadmap tag appears randomly in the stackshot")
+            'decoy': st.one_of(st.none(), st.none(), st.fixed_dictionaries({
+                'tm': threadmap(3), 'recs': st.lists(S.record64(), min_size=1, max_size=3), 'gap': st.binary(max_size=12)})),
             **({'forced_logs': st.lists(logrec, min_size=2, max_size=6)} if force_logs else {}),
         }).map(_merge_forced)
     return _logs.string_table().flatmap(with_table)
@@ -257,6 +260,13 @@ def build_v3(spec):
     f1 = spec['filler1']
     if spec.get('filler1_tag'):
         f1 = kmodel.TAG_THREADMAP + f1      # the thread-map tag "appears randomly in the stackshot"
+    dec = spec.get('decoy')
+    if dec:
+        tmb = b''.join(kmodel.threadmap_entry(*t) for t in dec['tm'])
+        blob = (kmodel.TAG_THREADMAP + kmodel.le(len(tmb), 8) + tmb + bytes(dec['gap']).replace(b's', b'S') +
+                kmodel.TAG_EVENTS + kmodel.le(64 * len(dec['recs']), 8) + bytes(8) + b''.join(dec['recs']))
+        if ends_cleanly(blob + f1, kmodel.STACKSHOT_END):
+            f1 = blob + f1
     chunks = spec['chunks']
     return kmodel.v3_file(spec['hdr'], _dumps(spec['cpu'], False), f1, spec['filler2'] , [tuple(t) for t in spec['tm']],
                           chunks, spec['more_fillers'][:max(0, len(chunks) - 1)], blocks, last_pad=spec['last_pad'],
